@@ -379,15 +379,17 @@ func (f *frame) callByContract(site siteT, ct *Contract, key string, sig *types.
 	// results
 	n := sig.Results().Len()
 	res := make([]Val, n)
-	if ct.Pure && n == 1 && obj != nil && ct.Opts["fn"] != "off" {
-		// pure function: result is a function of the arguments (and nothing else)
+	if ct.Pure && n >= 1 && obj != nil && ct.Opts["fn"] != "off" {
+		// pure function: each result is a function of the arguments (and nothing else)
 		var ts []Term
 		for _, a := range args {
 			ts = append(ts, f.asTerm(a))
 		}
-		r := c.name(shortHint(key)+".res", c.pureMethodApp(obj, ts, sig.Results().At(0).Type()))
-		c.assume(implies(f.guard, c.typeInv(r, sig.Results().At(0).Type(), c.nalloc(f.heap), 0)))
-		res[0] = r
+		for i := 0; i < n; i++ {
+			r := c.name(shortHint(key)+".res", c.pureResultApp(obj, ts, sig.Results().At(i).Type(), i, n))
+			c.assume(implies(f.guard, c.typeInv(r, sig.Results().At(i).Type(), c.nalloc(f.heap), 0)))
+			res[i] = r
+		}
 	} else {
 		for i := 0; i < n; i++ {
 			res[i] = f.havocVal(sig.Results().At(i).Type(), shortHint(key)+".res", f.heap)
